@@ -58,6 +58,14 @@ def scheduled():
         "pre set 6b 7631",
         "thread g1 0 get 6b", "thread g2 50 get 6b ; get 6b", "thread s 60 set 6b 7632",
         "park g1 get:checked_out 300", "timeout 8000", "END"])))
+    # a put that fills the active file: appended to the old file, the next file created and made active, THEN published;
+    # a reader whose mapping of the old file predates the put reads that record, then one in the new file
+    out.append(("roll-vs-get", "\n".join([
+        "CASE roll-vs-get mfs=60 conc=1 cache=0 frag=0/1 dead=0 small=1000000000",
+        "pre set 6b 7631", "pre get 6b",
+        "thread w 0 set 6c 40x41 ; set 6b 7632",
+        "thread r 100 get 6c ; sleep 500 ; get 6c ; get 6b",
+        "park w put:before_publish 400", "timeout 8000", "END"])))
     return out
 
 
@@ -101,11 +109,24 @@ def model_schedules():
     return out
 
 
+def roll_schedules():
+    """forced schedules of the rollover model Conc/RollLTS.v: name -> (events, thread map, values); the writer is thread 99"""
+    out = {}
+    # keys k=1 l=2; values v1=1 40xA=2 v2=3
+    ev = ["WAppend 1 1", "WPublish", "WReturn", "GLookup 0 1", "GRead 0", "GReturn 0",
+          "WAppend 2 2", "WRoll", "GLookup 0 2", "GRead 0", "GReturn 0", "WPublish", "WReturn",
+          "WAppend 1 3", "WPublish", "WReturn", "GLookup 0 2", "GRead 0", "GReturn 0", "GLookup 0 1", "GRead 0", "GReturn 0"]
+    out["roll-vs-get"] = (ev, {99: ["P:0", "w"], 0: ["P:1", "r"]}, {1: "7631", 2: "41" * 40, 3: "7632"})
+    return out
+
+
 def real_results(lines, names):
     """result sequence of the harness threads `names` (P = the pre ops), in their own order"""
     res = []
     for nm in names:
-        if nm == "P":
+        if nm.startswith("P:"):
+            res.append([l.split(" = ")[1].strip() for l in lines if l.startswith("P ")][int(nm[2:])])
+        elif nm == "P":
             res += [l.split(" = ")[1].strip() for l in lines if l.startswith("P ")]
         else:
             hs = sorted((int(l.split()[2]), l) for l in lines if l.startswith("H %s " % nm))
@@ -134,9 +155,18 @@ def compare_model(rep, cases, outs, pinned=False):
         log("\n".join(logs)[-3000:])
         return 0
     blocks = vals[0].split("\n--\n")
+    todo = [(name, blk) + tuple(ms[name][2:]) for name, blk in zip(names, blocks)]
+    rs = roll_schedules()
+    rnames = [n for n in rs if any(c[0] == n for c in cases)] if not pinned else []
+    if rnames:
+        vals, logs = coq_eval("C04", "Conc.RollLTS Conc.RenderLTS", ["render_rolls ([%s])%%list" % "; ".join("[%s]%%list" % "; ".join("RollLTS." + e for e in rs[n][0]) for n in rnames)])
+        if vals[0] is None:
+            rep.obligation("model evaluation of the forced rollover schedules", False)
+            log("\n".join(logs)[-3000:])
+            return 0
+        todo += [(name, blk) + tuple(rs[name][1:]) for name, blk in zip(rnames, vals[0].split("\n--\n"))]
     n = 0
-    for name, blk in zip(names, blocks):
-        cap, ev, tmap, vmap = ms[name]
+    for name, blk, tmap, vmap in todo:
         lines = next(o[1] for c, o in zip(cases, outs) if c[0] == name).split("\n")
         model = {}
         for l in blk.split("\n"):
